@@ -375,6 +375,7 @@ def check_C03(tier, seed):
     binders = ["(let ((p 1) (q . 5)) p)", "(let* ((p 1) (q . 5)) p)", "(let ((p 1) 5) p)", "(let ((p 1) (q 1 2)) p)", "(let* ((p 1) ((q) 2)) p)", "(let ((p 1) (t 2)) p)", "(let ((p 1) (:k 2)) p)",
                "(let ((p 1) . 5) p)", "(let* ((p 1) (q (nofn))) p)", "(let ((p 1) (q 2) (o1 . 3)) p)", "(let* ((p 1) (q p) more (o1 . 3)) p)", "(let ((p 1)) (let ((q 2) (o1 . 3)) q))",
                "(dolist (p '(1 2) . 3) p)", "(dolist (p (nofn)) p)", "(dolist (p '(1 . 2)) (car p))", "(dotimes (p 'x) p)", "(dotimes (p 2 . 3) p)", "(dotimes (p 2) (let ((q 1) (o1 . 2)) q))",
+               "(dotimes (p 2 (car p)) p)", "(dotimes (p 2 (nofn)) 1)", "(dolist (p '(1 2) (nofn)) 1)", "(dolist (p '(1) (car 5)) p)", "(dotimes (p 0 (nofn)))", "(let ((q 1)) (dotimes (p 1 (car q)) (setq q 5)))",
                "(if-let ((p 1) (q . 2)) p)", "(when-let ((p 1) (q (nofn))) p)", "(if-let* ((p 1) (q 1 2)) p)", "(while-let ((p 1) (q . 2)) p)",
                "(funcall (lambda (p) (let ((q 1) (o1 . 2)) q)) 1)", "(mapcar (lambda (p) (let* ((q p) (more . 2)) q)) '(1 2))"]
     for b_ in binders:
@@ -657,6 +658,12 @@ def check_C08(tier, seed):
                 for ctxt in ('%s', "'%s", '(if nil %s 1)', "(list '%s)", '`(%s)', '(progn (quote %s) 2)'):
                     rt.append(ctxt % form)
                 rt.append(form[:-1]); rt.append(form[:-2])
+    # dotted forms in tail position of a definition (the tail-call marking walks them while the text is read)
+    for body_ in ['(progn . 5)', '(let . x)', '(let* ((y 1)) . y)', '(if x 1 . 2)', '(if x . 1)', '(cond ((> x 1) . t))', '(cond (x 1) . 2)', '(cond . x)', '(progn (if x (progn . x) . 3))', '(let ((y x)) (cond (y . y)))',
+                  '(rtf . 1)', '(rtf x . 2)', '(when x . 1)', '(unless . x)', '(progn 1 . 2)', '(if)', '(cond ())', '(let)']:
+        for head in ('defun', 'defmacro'):
+            if head == 'defmacro' and body_.startswith('(rtf'): continue      # a macro that expands into a call of itself never stops expanding
+            rt += ['(%s rtf (x) %s)' % (head, body_), "'(%s rtf (x) %s)" % (head, body_), '(%s rtf (x) 1 %s)' % (head, body_), '(%s rtf (x) . %s)' % (head, body_)]
     for nm in ('5', '(g)', 'nil', '"s"', ':k', ''):
         for head in ('defun', 'defmacro'):
             rt += ['(%s %s (a) a)' % (head, nm), "'(%s %s (a) a)" % (head, nm), '(%s %s)' % (head, nm), '(%s)' % head, '(%s . %s)' % (head, nm or 'x')]
@@ -1600,6 +1607,10 @@ def check_C07(tier, seed):
             # the expected value, written as quoted data with the inner template verbatim
             exp = "'" + outer[1:].replace(',@(list 1 2)', '1 2').replace(',x', '5').replace('%s', inner)
             nested.append(("%s (let ((r %s)) (list (equal r %s) v (prin1-to-string r) (prin1-to-string %s)))" % (npre, tmpl, exp, exp), {'tmpl': tmpl, 'nested': True}))
+    # the value of a dotted-tail unquote that is itself an improper list keeps its tail (it goes through append / deep_copy)
+    for prog_, exp_ in [("(let ((v '(1 . 2))) (list `(k . ,v) `((count . 3) (range . ,v)) (equal `(k . ,v) (cons 'k v)) v))", "((k 1 . 2) ((count . 3) (range 1 . 2)) t (1 . 2))"),
+                        ("(let ((v '(1 2 . 3)) (w '(a . b))) (list `(x y . ,v) `(,@(list 1) . ,w) `((p . ,w) . ,v) (append '(a) v) (append '(a) '(b) w)))", "((x y 1 2 . 3) (1 a . b) ((p a . b) 1 2 . 3) (a 1 2 . 3) (a b a . b))")]:
+        nested.append(("%s (let ((r %s)) (list (equal r '%s) v (prin1-to-string r) (prin1-to-string '%s)))" % (npre, prog_, exp_, exp_), {'tmpl': prog_, 'nested': True}))
     rows = run_exprs(res, items, per_case=20)
     rows2 = run_exprs(res, fresh, per_case=10, tag='f')
     rows3 = run_exprs(res, clos, per_case=20, tag='c')
@@ -2254,9 +2265,11 @@ def check_C09(tier, seed):
     # as lists), both written out and consed at run time
     for t_ in ["'(quote a)", "'(x (quote (1 2)) y)", "'(function car)", "'(quote)", "'(quote a b)", "'(quote . a)", "'((quote a) . (quote b))", "'(backquote (a (unquote b)))",
                "(list 'quote 'a)", "(list 'x (list 'quote (list 1 2)) (cons 'quote nil))", "(list (consp '(quote a)) (car '(quote a)) (length '(x (quote (1 2)) y)) (equal '(quote a) (list 'quote 'a)) (cadr '(quote a)))",
-               "'(progn (quote a) (function b) (quote (quote c)))", "(cdr '(0 quote a))", "'(1 quote)"]:
+               "'(progn (quote a) (function b) (quote (quote c)))", "(cdr '(0 quote a))", "'(1 quote)",
+               # quoted lambda lists are data too: macro calls inside them are not expanded while reading
+               "'(lambda (x) (-> x (+ 1)))", "'(lambda () (quote b))", "#'(lambda (x) (when x 1))", "'((lambda (y) (->> y (list))) . tail)", "(car '((lambda (z) (unless z 2))))", "'(defun-like (lambda (q) (if-let ((a q)) a)))"]:
         comp.append(t_)
-    nq = len(comp) - 14
+    nq = len(comp) - 20
     for i, t in enumerate(comp):
         c = Case(('q%d' if i < nq else 'k%d') % i); c.eval(t); pcases.append(c)
     impl1 = core.run_side(core.TLIMPL_DEBUG, pcases, announce=True)
@@ -2403,6 +2416,8 @@ def check_C10(tier, seed):
               # a definition executed while the last form of the body it processes is being evaluated (a handler that reloads itself)
               "(defun reload () (defun on-event () (reload))) (reload) (on-event) (on-event)", "(setq form '(defun f () (eval form))) (eval form) (f)",
               "(defun f () (defun f () 2) 1) (list (f) (f))", "(setq form '(defmacro mm () (eval form))) (eval form)", "(defun g () (eval '(defun g () (g))) 7) (g)",
+              "(make-hash-table :size -1)", "(make-hash-table :size -9223372036854775808)", "(make-hash-table :size 9223372036854775807)", "(make-hash-table :test 'equal :size -5)", "(make-hash-table :size 1.5)",
+              "(make-hash-table :size 'a)", "(make-hash-table :size)", "(make-hash-table :weakness t :rehash-size -2.0 :size 0)", "(puthash 1 2 (make-hash-table :size -3))",
               "(setq l '(1 2)) (append l l)", "(setq l '(1 2)) (equal l l)", "(setq s 'q) (append s s)", "(let ((l (list 1 2))) (sort l (lambda (a b) (append l l) nil)))"]
     for sh in shapes: items.append((sh, {'name': 'shape'}))
     # every name applied, as a function value, to elements that are reader wrapper objects, through the sequence functions
@@ -3159,6 +3174,23 @@ def check_C19(tier, seed):
         c.ctx(0); c.eval("(defmacro mm (x) (list '* x 10))"); c.ctx(1); c.eval("(defmacro mm (x) (list '* x 10))")
         c.ctx(0); c.load('prog.el'); c.vars(['a']); c.ctx(1); c.eval(body); c.vars(['a'])
         lcases.append(c); lmeta.append({'npre': 1, 'mode': 'macro-redefined', 'body': body})
+    # a relative name is resolved against the working directory only, whatever was loaded before and from wherever
+    for j in range(4):
+        c = Case('ld%d' % j)
+        c.file('sub/inner.el', '(setq got-inner 42)'); c.file('sub/outer.el', '(load "inner.el")'); c.file('top-outer.el', '(load "inner.el")')
+        c.file('sub/first.el', '(setq got-first 7)'); c.file('sub/second.el', '(setq got-second 8)')
+        body = ['(load "inner.el")', '(load "second.el")', '(progn (load "sub/first.el") (load "second.el"))', '(load "sub/outer.el")'][j]
+        if j == 1:
+            c.ctx(0); c.load('sub/first.el'); c.ctx(1); c.eval('(setq got-first 7)')
+        c.ctx(0)
+        if j == 3: c.load('sub/outer.el')
+        else: c.eval(body)
+        c.vars(['got-inner', 'got-first', 'got-second'])
+        c.ctx(1)
+        if j == 3: c.load('top-outer.el')
+        else: c.eval({0: '(load "inner.el")', 1: '(load "second.el")', 2: '(progn (setq got-first 7) (load "second.el"))'}[j])
+        c.vars(['got-inner', 'got-first', 'got-second'])
+        lcases.append(c); lmeta.append({'npre': 1 if j == 1 else 0, 'mode': 'subdir', 'body': body})
     implL = core.run_side(core.TLIMPL_DEBUG, lcases, announce=True, env={'TL_SHOWERR': '1'}, timeout=60)
     modelL = core.run_side(core.TLMODEL, lcases)
     def strip_msg(l):
@@ -3184,7 +3216,12 @@ def check_C19(tier, seed):
         else:
             pairs = [(0, 2), (1, 3)] if len(rest) >= 4 else []
         for a, b in pairs:
-            if strip_msg(rest[a]) != strip_msg(rest[b]):
+            if meta['mode'] == 'subdir' and a == 0:
+                # the two texts differ (one loads, the other evaluates), so do the positions in the messages: outcome class only
+                differs = core.parse_line(rest[a])[1] != core.parse_line(rest[b])[1]
+            else:
+                differs = strip_msg(rest[a]) != strip_msg(rest[b])
+            if differs:
                 nv += 1
                 if nv <= 8: res.violation('load-vs-eval', {'file_contents': meta['body'], 'mode': meta['mode'], 'loaded': decode_line(rest[a]), 'evaluated_as_string': decode_line(rest[b]),
                                                            'requests': c.readable(), 'why': 'loading a file and evaluating its contents differ (value, effects, variables or error apart from the file name)'})
